@@ -439,6 +439,63 @@ theorem C19_tree_delete_files (climb : Bool) (cls : Cls) (ops : List TOp) (s : S
     (tstep ⟨Cfg.current, climb⟩ (trun ⟨Cfg.current, climb⟩ (.init cls) ops) (.on s .delete)).1.tree.files s = Files.none := by
   cases s <;> simp only [tstep] <;> exact apply1_delete_files climb _ _ _
 
+/-! ## Explicit names that differ only by a dotted tail, saved side by side (`runs/relax`, `runs/relax.v2`) -/
+
+/-- the last good save of EACH name is what loading that name returns -/
+def C19NamesStatement (tc : TCfg) (m : NameMode) : Prop :=
+  ∀ (cls : Cls) (ops : List (Name × Op)) (n : Name) (v : Nat), (promiseN n .init ops).last = some v →
+    ∃ v', storageLoad ((nrun tc m (.init cls) ops).tree.view (resolve m n)) = .ok cls v' ∧
+      (v' = v ∨ v' ∈ (promiseN n .init ops).inflight)
+
+/-- when the storage APPENDS its extension to the name it is given, every name has its own files: the statement holds
+for every interleaving of saves (failing, interrupted anywhere), loads and deletes under the two names -/
+theorem C19_names_durable (sw climb : Bool) : C19NamesStatement ⟨⟨.atomicReplace, sw⟩, climb⟩ .append := by
+  intro cls ops n v hv
+  rw [nrun_append]
+  rw [promiseN_append] at hv ⊢
+  exact C19_tree_durable sw climb cls (ops.map nameOp) (resolve .append n) v hv
+
+/-- ... and an operation under one name never touches the other name's files -/
+theorem C19_names_frame (tc : TCfg) (w : TWorld) (n n' : Name) (op : Op) (h : n' ≠ n) :
+    (nstep tc .append w n op).1.tree.files (resolve .append n') = w.tree.files (resolve .append n') := by
+  rw [nstep_append tc w (n, op)]
+  apply tstep_frame
+  cases n <;> cases n' <;> simp_all [nameOp, resolve, TOp.touches]
+
+/-- with `Path.with_suffix` (the text after the last dot is REPLACED) `relax.v2` and `relax` are one file: a save under
+the neighbouring name is what the next load of the first name returns, and deleting one name deletes the other -/
+theorem C19_names_collide_witness : ¬ C19NamesStatement TCfg.current .replaceTail := by
+  intro h
+  obtain ⟨v', hl, hv⟩ := h Cls.graph [(.primary, .save .ok 1), (.neighbour, .save .ok 2)] .primary 1 (by decide)
+  have : storageLoad ((nrun TCfg.current .replaceTail (.init Cls.graph)
+      [(.primary, .save .ok 1), (.neighbour, .save .ok 2)]).tree.view (resolve .replaceTail .primary)) = .ok Cls.graph 2 := by
+    decide
+  rw [this] at hl
+  have hv2 : v' = 2 := by cases hl; rfl
+  subst hv2
+  revert hv
+  decide
+
+/-! ## A retry of an interrupted save -/
+
+/-- a save interrupted at ANY call and then simply done again with the same content, from ANY state: the retry is what
+the next load returns and it leaves a single final-name file (no stale other suffix) -- seeded change C19-9 -/
+theorem C19_retry_wins (sw : Bool) (fs : FS) (c : Content) (cls : Cls) (v k : Nat) (hc : c.fails = false) :
+    storageLoad (saveFS ⟨.atomicReplace, sw⟩ (crashFS ⟨.atomicReplace, sw⟩ fs c cls v k) c cls v) = .ok cls v ∧
+      (((saveFS ⟨.atomicReplace, sw⟩ (crashFS ⟨.atomicReplace, sw⟩ fs c cls v k) c cls v).pckl = .good cls v ∧
+          (saveFS ⟨.atomicReplace, sw⟩ (crashFS ⟨.atomicReplace, sw⟩ fs c cls v k) c cls v).cpckl = .absent) ∨
+        ((saveFS ⟨.atomicReplace, sw⟩ (crashFS ⟨.atomicReplace, sw⟩ fs c cls v k) c cls v).pckl = .absent ∧
+          (saveFS ⟨.atomicReplace, sw⟩ (crashFS ⟨.atomicReplace, sw⟩ fs c cls v k) c cls v).cpckl = .good cls v)) :=
+  ⟨save_last_wins _ _ c cls v hc, C19_save_leaves_single_suffix sw _ c cls v hc⟩
+
+/-- the state C19-9 needs: good `.pckl`, then a cloudpickle-only save cut between `os.replace` and the removal of the
+`.pckl`; the retry removes the stale file -/
+theorem C19_retry_removes_stale_suffix :
+    (run Cfg.current (.init Cls.graph) [.save .ok 1, .crash .pickleFails 2 7]).fs =
+        ⟨true, .good Cls.graph 1, .good Cls.graph 2, .absent, .absent⟩ ∧
+      (run Cfg.current (.init Cls.graph) [.save .ok 1, .crash .pickleFails 2 7, .save .pickleFails 2]).fs =
+        ⟨true, .absent, .good Cls.graph 2, .absent, .absent⟩ := by decide
+
 /-! ## The storage interface: any back end, through the hooks `delete` uses -/
 
 /-- for a back end whose `_delete` removes everything it writes: `StorageInterface.delete` leaves nothing of it behind
@@ -575,6 +632,11 @@ end PwVerif.C19
 #print axioms PwVerif.C19.C19_tree_delete_cleans
 #print axioms PwVerif.C19.C19_tree_delete_witness
 #print axioms PwVerif.C19.C19_tree_delete_files
+#print axioms PwVerif.C19.C19_names_durable
+#print axioms PwVerif.C19.C19_names_frame
+#print axioms PwVerif.C19.C19_names_collide_witness
+#print axioms PwVerif.C19.C19_retry_wins
+#print axioms PwVerif.C19.C19_retry_removes_stale_suffix
 #print axioms PwVerif.C19.C19_interface_delete_cleans_iff
 #print axioms PwVerif.C19.C19_pickle_hooks_truthful
 #print axioms PwVerif.C19.C19_default_hook_not_truthful
